@@ -11,6 +11,7 @@ import (
 	"io/fs"
 	"path"
 	"sort"
+	"strings"
 	"time"
 )
 
@@ -261,12 +262,20 @@ func NewFS() *FS {
 	return &FS{Files: map[string][]byte{}, Faults: map[string]FileFault{}, Fired: map[string]int{}}
 }
 
-type dirEntry struct{ name string }
+type dirEntry struct {
+	name string
+	dir  bool
+}
 
-func (d dirEntry) Name() string               { return d.name }
-func (d dirEntry) IsDir() bool                { return false }
-func (d dirEntry) Type() fs.FileMode          { return 0 }
-func (d dirEntry) Info() (fs.FileInfo, error) { return fileInfo{name: d.name}, nil }
+func (d dirEntry) Name() string { return d.name }
+func (d dirEntry) IsDir() bool  { return d.dir }
+func (d dirEntry) Type() fs.FileMode {
+	if d.dir {
+		return fs.ModeDir
+	}
+	return 0
+}
+func (d dirEntry) Info() (fs.FileInfo, error) { return fileInfo{name: d.name, dir: d.dir}, nil }
 
 type fileInfo struct {
 	name string
@@ -289,6 +298,9 @@ func (fi fileInfo) Sys() interface{}   { return nil }
 type dirFile struct {
 	fsys *FS
 	read bool
+	// prefix is "" for the root directory, "core/" for the directory core
+	// (directories exist by way of the file names that start with them)
+	prefix string
 }
 
 func (d *dirFile) Stat() (fs.FileInfo, error) { return fileInfo{name: ".", dir: true}, nil }
@@ -302,14 +314,26 @@ func (d *dirFile) ReadDir(n int) ([]fs.DirEntry, error) {
 		return nil, nil
 	}
 	d.read = true
+	isDir := map[string]bool{}
 	names := make([]string, 0, len(d.fsys.Files))
 	for k := range d.fsys.Files {
-		names = append(names, k)
+		if !strings.HasPrefix(k, d.prefix) {
+			continue
+		}
+		rest := k[len(d.prefix):]
+		if i := strings.Index(rest, "/"); i >= 0 {
+			rest = rest[:i]
+			if isDir[rest] {
+				continue
+			}
+			isDir[rest] = true
+		}
+		names = append(names, rest)
 	}
 	sort.Strings(names)
 	out := make([]fs.DirEntry, 0, len(names))
 	for _, k := range names {
-		out = append(out, dirEntry{name: k})
+		out = append(out, dirEntry{name: k, dir: isDir[k]})
 	}
 	return out, nil
 }
@@ -351,6 +375,11 @@ func (s *FS) Open(name string) (fs.File, error) {
 	}
 	data, ok := s.Files[path.Clean(name)]
 	if !ok {
+		for k := range s.Files {
+			if strings.HasPrefix(k, path.Clean(name)+"/") {
+				return &dirFile{fsys: s, prefix: path.Clean(name) + "/"}, nil
+			}
+		}
 		return nil, &fs.PathError{Op: "open", Path: name, Err: fs.ErrNotExist}
 	}
 	s.Opened = append(s.Opened, name)
